@@ -54,6 +54,9 @@ public:
     if (full_round_)
       return true;
 
+    // calibrated azimuths may lie outside [0, 36000): compare modulo one round, as start_/end_ are.
+    angle = _round (angle);
+
     if (cross_zero_)
     {
       return (angle >= start_) || (angle < end_);
